@@ -571,6 +571,8 @@ func isPureName(name string) bool {
 // ---- execution --------------------------------------------------------------------------
 
 type frame struct {
+	steps     int
+	headerPos map[*ssa.BasicBlock]int // decision-script position at the last visit of a loop header
 	fn     *ssa.Function
 	env    map[ssa.Value]*Term
 	depth  int
@@ -635,6 +637,25 @@ func (w *Walker) exec(fn *ssa.Function, args []*Term, bindings []*Term, depth in
 				c := w.val(fr, x.Cond)
 				prev = b
 				w.loopCond = isLoopHeader(b)
+				if last, seen := fr.headerPos[b]; fr.headerPos != nil && seen && last != w.pos {
+					// a symbolic decision was taken during the last iteration: an ordinary, fuel-bounded loop
+				} else if _, isConst := c.BoolVal(); isConst && w.loopCond && fr.steps < 20000 {
+					// a loop whose condition folds to a constant (counting over a literal or a constant table) is not
+					// bounded by the fuel, which exists for loops over symbolic data
+					fr.visits[b]--
+					for blk := range fr.visits {
+						if blk != b && dominates(b, blk) {
+							fr.visits[blk] = 0
+						}
+					}
+				}
+				fr.steps++
+				if w.loopCond {
+					if fr.headerPos == nil {
+						fr.headerPos = map[*ssa.BasicBlock]int{}
+					}
+					fr.headerPos[b] = w.pos
+				}
 				taken := w.decide(c)
 				w.loopCond = false
 				if taken {
